@@ -5,11 +5,12 @@ import glob, json, os, re, subprocess, sys, tempfile, shutil
 from concurrent.futures import ThreadPoolExecutor
 
 
-def run_all(wt):
+def run_all(wt, only=None):
     """all 19 properties in one process (shared facts and partial-evaluation results); -> {prop: (rc, keys, rules, undecided)}"""
     import os, re, subprocess
     env = dict(os.environ, FQR_GEOM_ALL="1")
-    c = subprocess.run(["/verif/check", "ALL", "--repo", wt], capture_output=True, text=True, cwd="/verif", env=env)
+    cmd = ["/verif/check", "ALL", "--repo", wt] + (["--only", ",".join(sorted(only))] if only else [])
+    c = subprocess.run(cmd, capture_output=True, text=True, cwd="/verif", env=env)
     out = {}
     for m in re.finditer(r"^==== (C\d\d)\n(.*?)^==== \1 exit=(\d)", c.stdout, re.S | re.M):
         pr, body, rc = m.group(1), m.group(2), int(m.group(3))
@@ -18,9 +19,18 @@ def run_all(wt):
         und = re.findall(r"UNDECIDED rule=(\S+) (.*)", body)
         mach = re.findall(r"MACHINERY-ERROR.*", body)
         out[pr] = (rc, keys, rules, und, mach)
-    if len(out) != 19:
+    if len(out) != (len(only) if only else 19):
         out["_error"] = (2, [], [], [], [c.stdout[-300:] + c.stderr[-300:]])
     return out
+
+
+AREA = {
+    "R1": ["C01", "C03", "C04", "C05", "C08", "C10", "C11", "C15"],
+    "R2": ["C01", "C02", "C05", "C06", "C07", "C09", "C10"],
+    "R3": ["C01", "C02", "C03", "C04", "C05", "C06", "C07", "C10", "C15"],
+    "R4": ["C01", "C08", "C11", "C16"],
+    "R5": ["C12", "C13", "C14", "C15", "C17", "C18", "C19"],
+}
 
 
 def one(patch):
@@ -33,7 +43,8 @@ def one(patch):
         if a.returncode:
             return name + " PATCH DOES NOT APPLY " + a.stderr[:200]
         out = {"patch": name, "alarms": {}, "undecided": {}, "machinery": {}}
-        for pr, (rc, keys, rules, und, mach) in sorted(run_all(wt).items()):
+        area = AREA.get(name.split("/")[0].split("-")[0]) if not os.environ.get("REFAC_ALL_PROPS") else None
+        for pr, (rc, keys, rules, und, mach) in sorted(run_all(wt, area).items()):
             if keys:
                 out["alarms"][pr] = keys[:6]
             if und:
